@@ -250,6 +250,9 @@ func TestVerifC06(t *testing.T) {
 		g.do("pf", 0xdead000, 0)
 	})
 
+	g.r = &vrng{s: verifSeed() ^ 0x5eed}
+	g.memUtilCases(30)
+
 	// ---- seeded cases
 	for i := 0; i < n; i++ {
 		g.r = rng.fork()
